@@ -90,7 +90,9 @@ fn c17_slice_3() {
 #[kani::proof]
 #[kani::unwind(20)]
 fn c17_str_twin_must_fail() {
-    let f = String::from("a");
-    assert!(f.len() == 2, "vacuity witness");
+    let bytes: [u8; 0] = [];
+    let s = core::str::from_utf8(&bytes).unwrap();
+    let f = String::from(s);
+    assert!(f.len() == 1, "vacuity witness");
     drop(f);
 }
